@@ -55,6 +55,20 @@ class Explorer:
         hit = self._prod.get(key)
         if hit is not None:
             return hit[0]
+        # factors that are equal to the factors of an existing product under the current path condition (same values reached through
+        # different terms, e.g. a constant quantised by the code and by the specification) share that product: one cheap query
+        # without any multiplication instead of an equivalence proof of two multiplier circuits later
+        for (r2, a2, b2) in list(self._prod.values()):
+            for (u, v) in ((a2, b2), (b2, a2)):
+                if u.lo > a.hi or u.hi < a.lo or v.lo > b.hi or v.hi < b.lo:
+                    continue
+                wa, wb = max(a.w, u.w), max(b.w, v.w)
+                same = z3.And(a.ext(wa) == u.ext(wa), b.ext(wb) == v.ext(wb))
+                try:
+                    if self.implied(same):
+                        return r2
+                except Undecided:
+                    pass
         w = max(T.bits_for(lo, hi), a.w, b.w)
         p = z3.BitVec(T.fresh_name('prod'), w)
         rng = z3.And(p >= z3.BitVecVal(lo, w), p <= z3.BitVecVal(hi, w))
